@@ -174,6 +174,19 @@ func gen(r *common.Rng, tier string, w *bufio.Writer) {
 	if tier == "thorough" {
 		cases, length = 3000, 260
 	}
+	// the default configuration's sizes with cameras whose frame period is not a whole number of milliseconds:
+	// one burst at a single instant must admit exactly bucket-size*fps frames
+	{
+		fps := r.Pick(60, 30, 48, 9)
+		hdr := fmt.Sprintf("case big throttle bucketsecs=600 refillms=600000 minsecs=15 fps=%d", fps)
+		fmt.Fprintln(w, hdr)
+		capacity, _, _ := params(strings.Fields(hdr))
+		fmt.Fprintf(w, "s 0 100 1\n")
+		for k := int64(1); k <= capacity+40; k++ {
+			fmt.Fprintf(w, "w 0 %d 1 1 1\n", k)
+		}
+		fmt.Fprintf(w, "p 1\n")
+	}
 	for id := 0; id < cases; id++ {
 		fps := r.Pick(1, 1, 2, 3, 9)
 		bucketsecs := r.Pick(1, 2, 3, 5, 8, 20)
